@@ -18,6 +18,7 @@ type Field struct {
 	Major   int
 	Arg     uint64 // the value written (after override)
 	True    uint64 // the value that would be correct
+	Ex      int    // exchange index for index-off / index-len fields, else -1
 }
 
 // Ov overrides the value written for one role. Info < 0: shortest head for Val.
@@ -72,7 +73,7 @@ func (e *em) head(role string, major int, n uint64) {
 	} else {
 		e.b = rcbor.AppendHeadSized(e.b, major, v, info)
 	}
-	e.f = append(e.f, Field{role, off, len(e.b) - off, major, v, n})
+	e.f = append(e.f, Field{role, off, len(e.b) - off, major, v, n, -1})
 }
 
 func (e *em) raw(b []byte) { e.b = append(e.b, b...) }
@@ -167,7 +168,9 @@ func (s *BSpec) Build(ov map[string]Ov) ([]byte, []Field) {
 		}
 		for k, li := range en.locs {
 			idx.head(fmt.Sprintf("index-off[%d][%d]", j, k), 0, uint64(spans[li].off))
+			idx.f[len(idx.f)-1].Ex = li
 			idx.head(fmt.Sprintf("index-len[%d][%d]", j, k), 0, uint64(spans[li].length))
+			idx.f[len(idx.f)-1].Ex = li
 		}
 	}
 	secs := map[string]*em{"index": idx, "responses": resp}
